@@ -61,6 +61,7 @@ let runners : (string * (z list -> z list)) list = [
   "llo", run_llo;
   "guards", run_guards;
   "pipebuf", run_pipebuf;
+  "qidx", run_qidx;
 ]
 
 let () =
